@@ -31,7 +31,7 @@ Record cst := mkC {
   timers : Z;                   (* armed time.AfterFunc(RetryDuration, NewConnReq) *)
   failed : list (Z * Z);        (* failedAttempts[addr] *)
   gfailed : Z;                  (* globalFailedAttempts *)
-  bans : Z;                     (* BanAddress calls = requests that ended without a successor *)
+  bans : Z;                     (* BanAddress calls *)
   canceled : Z;                 (* requests whose id was canceled while in flight *)
   dials : Z                     (* Dial calls *)
 }.
@@ -73,16 +73,12 @@ Definition spawn (s : cst) : cst :=
 Definition drop_canceled (s : cst) : cst :=
   mkC (tgt s) (maxf s) (next s) (pend s) (conns s) (tasks s) (timers s) (failed s) (gfailed s) (bans s) (canceled s + 1) (dials s).
 
-(* registerFailedConnectionTo: count the failure of address a; ban it at the threshold and RETURN
-   (no successor request - the defect), otherwise go NewConnReq() *)
+(* registerFailedConnectionTo: count the failure of address a; at the threshold ban it; in either
+   case go NewConnReq() (since fix 7026b86 - before, the ban path returned without a successor) *)
 Definition failed_to (s : cst) (a : Z) : cst :=
   let f := (fget (failed s) a + 1) mod 65536 in
-  let s1 := mkC (tgt s) (maxf s) (next s) (pend s) (conns s) (tasks s) (timers s) (fset (failed s) a f)
-                (gfailed s) (bans s) (canceled s) (dials s) in
-  if f >=? maxf s then
-    mkC (tgt s1) (maxf s1) (next s1) (pend s1) (conns s1) (tasks s1) (timers s1) (failed s1) (gfailed s1)
-        (bans s1 + 1) (canceled s1) (dials s1)
-  else spawn s1.
+  spawn (mkC (tgt s) (maxf s) (next s) (pend s) (conns s) (tasks s) (timers s) (fset (failed s) a f)
+             (gfailed s) (if f >=? maxf s then bans s + 1 else bans s) (canceled s) (dials s)).
 
 (* registerFailedConnection: global count; at the threshold arm the retry timer, else go NewConnReq() *)
 Definition failed_global (s : cst) : cst :=
@@ -172,11 +168,20 @@ Definition cinit (target mf : Z) : cst :=
 Definition quiescent (s : cst) : Prop := tasks s = [] /\ timers s = 0.
 Definition quiescentb (s : cst) : bool := match tasks s with [] => timers s =? 0 | _ => false end.
 
+(* the reachable alphabet: the server calls Disconnect only with ids it learnt through OnConnection
+   (sp.connReq), never with the id of a request that is still in flight *)
+Fixpoint server_alphabet (s : cst) (evs : list cev) : Prop :=
+  match evs with
+  | [] => True
+  | e :: t => match e with Disconnect id => task_stage (tasks s) id = None | _ => True end
+              /\ server_alphabet (cstep s e) t
+  end.
+
 (* ---- script layer used by the correspondence check --------------------------------------------
    The harness blocks every GetNewAddress / Dial call until the script releases it, hence between
    script events every task sits in WaitAddr or Dialing.  [settle] performs the internal steps the
    real manager performs on its own: armed timers fire, new tasks register. *)
-Inductive sev := SG (a : Z) | SE | SK (a : Z) | SF (a : Z) | SD (k : Z) | SZ.
+Inductive sev := SG (a : Z) | SE | SK (a : Z) | SF (a : Z) | SD (k : Z) | SZ | SC.
 
 Fixpoint first_stage (l : list (Z * stage)) (f : stage -> bool) : option Z :=
   match l with [] => None | (i, s) :: t => if f s then Some i else first_stage t f end.
@@ -226,6 +231,14 @@ Definition sstep (x : sst) (e : sev) : sst * bool :=
   | SZ => match lastdisc x with
           | Some id => (mkS (settle (cstep s (Disconnect id))) (lastdisc x), true)
           | None => (x, false) end
+  (* cancel: Disconnect(id) of the request in flight; the harness can name that id only when the
+     target is 1 (then at most one request exists and its id is the number of requests so far) *)
+  | SC => if tgt s =? 1 then
+            match tasks s with
+            | [(id, _)] => (mkS (settle (cstep s (Disconnect id))) (lastdisc x), true)
+            | _ => (x, false)
+            end
+          else (x, false)
   end.
 
 Definition sinit (target mf : Z) : sst := mkS (settle (cinit target mf)) None.
@@ -244,12 +257,12 @@ Definition dialing_addrs (s : cst) : list Z :=
   flat_map (fun t => match snd t with Dialing a => [a] | _ => [] end) (tasks s).
 
 (* ---- spec oracle on OBSERVED numbers (implementation output) ----------------------------------
-   open connections, blocked GetNewAddress calls, blocked Dial calls, BanAddress calls so far.
-   0 ok | 1 above-target | 2 slot-lost-after-address-ban (exactly one slot per ban is gone)
-   | 3 slot-lost (any other shortfall) | 4 too-many-requests *)
-Definition cm_check (target o w d b : Z) : nat :=
+   open connections, blocked GetNewAddress calls, blocked Dial calls, and x = the number of requests
+   the script canceled while they were in flight (each of those may end without a successor).
+   0 ok | 1 above-target | 3 slot-lost (fewer connections + requests than the target allows)
+   | 4 too-many-requests *)
+Definition cm_check (target o w d x : Z) : nat :=
   if o >? target then 1%nat
   else if o + w + d >? target then 4%nat
-  else if o + w + d =? target then 0%nat
-  else if (b >? 0) && (o + w + d + b =? target) then 2%nat
-  else 3%nat.
+  else if o + w + d + x <? target then 3%nat
+  else 0%nat.
